@@ -29,6 +29,13 @@ var admins = []adminT{
 	{"Heartbeat", "0", func(p *rig.Peer) []byte { return p.Heartbeat() }, ""},
 	{"TestRequest", "1", func(p *rig.Peer) []byte { return p.TestRequest("T" + strconv.Itoa(p.Seq+1)) }, ""},
 	{"ResendRequest", "2", func(p *rig.Peer) []byte { return p.Resend(1, 1) }, rig.TBeginSeq},
+	// a Logon that names other parties, another interval and other credentials than the session's own logon
+	{"LogonFromOtherParties", "A", func(p *rig.Peer) []byte {
+		q := &rig.Peer{Sender: "MALLORY", Target: "ELSEWHERE", Seq: p.Seq}
+		m := q.Logon(55, "0", fixref.F(rig.TUser, "mallory"), fixref.F(rig.TPass, "x"))
+		p.Seq = q.Seq
+		return m
+	}, rig.THeartBt},
 }
 
 var damages = []string{"bad-checksum", "bad-length", "non-numeric-body-field", "non-numeric-header-field", "bad-checksum+missing-seqnum", "bad-checksum+non-numeric-seqnum", "bad-length+missing-seqnum", "none(state-not-permitted)", "state-not-permitted+missing-seqnum", "state-not-permitted+non-numeric-seqnum", "non-numeric-seqnum", "empty-seqnum", "empty-numeric-body-field"}
@@ -96,7 +103,7 @@ type cell struct {
 
 func main() {
 	c := vk.Init("C16")
-	c.Rule("matrix: admin type {Logon, Logout, Heartbeat, TestRequest, ResendRequest} x damage {wrong checksum, wrong body length, non-numeric body field, non-numeric header field, wrong checksum/length + missing or non-numeric MsgSeqNum, undamaged but not permitted in the state, not permitted in the state and MsgSeqNum missing or non-numeric (correct framing), correct framing with a non-numeric or EMPTY MsgSeqNum value, an EMPTY numeric body field} x session state {waiting, logged on, logged on with the session's own TestRequest pending (real time, N=1; timer Heartbeats/TestRequests are not counted as answers)} x role x position (after 0..3 valid messages) x follow-up valid traffic; plus, over a scripted connection while logged on, every admin type with a CheckSum field whose value is 0, 1, 2, 4 or 5 characters long followed by a valid TestRequest; tag 35 itself is never damaged. Oracle per offending step: exactly one message emitted and it is a Reject with 45 = the offending 34 (or 371 = 34 when 34 is missing/non-numeric); IsLogged unchanged; context not cancelled and handler still running; the following valid message has its normal effect (TestRequest answered when logged on, good Logon accepted when waiting). distinct = matrix cell x position x seqnum; non-trivial = all")
+	c.Rule("matrix: admin type {Logon, Logout, Heartbeat, TestRequest, ResendRequest, a Logon naming other parties / interval / credentials} x damage {wrong checksum, wrong body length, non-numeric body field, non-numeric header field, wrong checksum/length + missing or non-numeric MsgSeqNum, undamaged but not permitted in the state, not permitted in the state and MsgSeqNum missing or non-numeric (correct framing), correct framing with a non-numeric or EMPTY MsgSeqNum value, an EMPTY numeric body field} x session state {waiting, logged on, logged on with the session's own TestRequest pending (real time, N=1; timer Heartbeats/TestRequests are not counted as answers)} x role x position (after 0..3 valid messages) x follow-up valid traffic; plus, over a scripted connection while logged on, every admin type with a CheckSum field whose value is 0, 1, 2, 4 or 5 characters long followed by a valid TestRequest; tag 35 itself is never damaged. Oracle per offending step: exactly one message emitted and it is a Reject with 45 = the offending 34 (or 371 = 34 when 34 is missing/non-numeric); IsLogged unchanged; context not cancelled and handler still running; the following valid message has its normal effect (TestRequest answered when logged on, good Logon accepted when waiting). distinct = matrix cell x position x seqnum; non-trivial = all")
 	c.Assume("a message whose only defect is a missing sequence number is not in the statement's list; 'state-not-permitted' cells are: Heartbeat/TestRequest/ResendRequest/Logout while waiting, Logon while logged on")
 	reps := c.Pick(10, 120)
 	var cells []cell
@@ -327,6 +334,9 @@ func runCell(c *vk.Ctx, ce cell, i int) {
 	} else {
 		f := res.Outs[0].Fields
 		c.Count("rejects_checked", 1)
+		if ce.logged && (fixref.GetS(f, rig.TSender) != rig.LibID || fixref.GetS(f, rig.TTarget) != rig.PeerID) {
+			c.Violate(key("reject-sent-under-another-identity"), fmt.Sprintf("%s: the Reject carries 49=%s 56=%s; the session logged on as 49=%s 56=%s", desc, fixref.GetS(f, rig.TSender), fixref.GetS(f, rig.TTarget), rig.LibID, rig.PeerID), replay)
+		}
 		if seqUsable {
 			if fixref.GetS(f, rig.TRefSeq) != seq {
 				c.Violate(key("reject-wrong-refseqnum"), fmt.Sprintf("%s: Reject has 45=%q, offending message had 34=%s", desc, fixref.GetS(f, rig.TRefSeq), seq), replay)
@@ -345,6 +355,8 @@ func runCell(c *vk.Ctx, ce cell, i int) {
 		fu.Outs = answers(fu.Outs)
 		if len(fu.Outs) != 1 || fu.Outs[0].Type != "0" || fixref.GetS(fu.Outs[0].Fields, rig.TTestReqID) != "after" {
 			c.Violate(key("following-valid-message-not-served"), desc+": a TestRequest after the invalid message was answered with "+types(fu.Outs), replay)
+		} else if ff := fu.Outs[0].Fields; fixref.GetS(ff, rig.TSender) != rig.LibID || fixref.GetS(ff, rig.TTarget) != rig.PeerID {
+			c.Violate(key("session-identity-changed-by-the-invalid-message"), fmt.Sprintf("%s: after the invalid message the session sends as 49=%s 56=%s; it logged on as 49=%s 56=%s", desc, fixref.GetS(ff, rig.TSender), fixref.GetS(ff, rig.TTarget), rig.LibID, rig.PeerID), replay)
 		}
 	} else if ce.role == rig.Acceptor {
 		fu := r.Inbound(p.Logon(30, "0"))
